@@ -68,11 +68,15 @@ def build_variant_exe(rundir, driver, shim_srcs, v, extra_inc=(), link_extra=())
     """compile the shim C sources with the variant's compiler/flags from REPO and link with the driver object"""
     objs = []
     for i, src in enumerate(list(shim_srcs) + v.extra_src):
+        src_flags = []
+        if isinstance(src, dict):  # {"src": ..., "cflags": [...]}: per-source extra flags (e.g. interposition -D for /repo sources only)
+            src_flags = list(src.get("cflags", []))
+            src = src["src"]
         if not os.path.isabs(src):
             src = os.path.join(VERIF, "shims", src) if not src.startswith("repo:") else os.path.join(REPO, src[5:])
         obj = os.path.join(rundir, "%s.%s.%d.o" % (driver, v.name, i))
         cmd = [v.cc] + BASE_DEFS + ["-I" + os.path.join(REPO, "include"), "-I" + os.path.join(VERIF, "shims")] \
-            + ["-I" + x for x in extra_inc] + ["-g", "-w"] + v.cflags + (san_flags(v.cc, v.san) if v.san else []) + ["-c", src, "-o", obj]
+            + ["-I" + x for x in extra_inc] + ["-g", "-w"] + v.cflags + src_flags + (san_flags(v.cc, v.san) if v.san else []) + ["-c", src, "-o", obj]
         r = sh(cmd)
         if r.returncode != 0:
             return None, "compile failed: %s\n%s" % (" ".join(cmd), r.stdout[-3000:])
